@@ -446,9 +446,6 @@ Proof.
     pose proof (agreeE_usable_live g h AG (idx w) Hu) as Hl. rewrite addr_idx in Hl.
     split; [exact Hl|]. intros h' S. eapply agreeE_stable; eauto.
   - destruct (eusable g (idx w)) eqn:Hu; [|discriminate]. inversion Hstep; subst g'.
-    pose proof (agreeE_usable g h AG (idx w) Hu) as Ha. rewrite addr_idx in Ha.
-    split; [exact Ha|]. intros h' S. eapply agreeE_stable; eauto.
-  - destruct (eusable g (idx w)) eqn:Hu; [|discriminate]. inversion Hstep; subst g'.
     pose proof (agreeE_usable_live g h AG (idx w) Hu) as Hl. rewrite addr_idx in Hl.
     split; [exact Hl|]. intros h' S. eapply agreeE_stable; eauto.
   - destruct (eusable g (idx w)) eqn:Hu; [|discriminate]. inversion Hstep; subst g'.
@@ -457,17 +454,18 @@ Proof.
   - destruct (eusable g (idx w)) eqn:Hu; [|discriminate]. inversion Hstep; subst g'.
     pose proof (agreeE_usable g h AG (idx w) Hu) as Ha. rewrite addr_idx in Ha.
     split; [exact Ha|]. intros h' S. eapply agreeE_stable; eauto.
-  - destruct (Nat.eqb (idx w) 0 && eusable g 0) eqn:Hc; [|discriminate]. inversion Hstep; subst g'.
-    apply andb_prop in Hc. destruct Hc as [E0 Hu]. apply Nat.eqb_eq in E0.
-    assert (Ew : w = root) by (rewrite <- (addr_idx w), E0; reflexivity).
-    pose proof (agreeE_usable_live g h AG 0%nat Hu) as Hl.
-    split; [split; [exact Ew|exact Hl]|]. intros h' S. eapply agreeE_stable; eauto.
   - destruct (eusable g (idx w)) eqn:Hu; [|discriminate]. inversion Hstep; subst g'.
     pose proof (agreeE_usable_live g h AG (idx w) Hu) as Hl. rewrite addr_idx in Hl.
     split; [exact Hl|]. intros h' S. eapply agreeE_stable; eauto.
   - destruct (eusable g (idx w)) eqn:Hu; [|discriminate]. inversion Hstep; subst g'.
     pose proof (agreeE_usable_live g h AG (idx w) Hu) as Hl. rewrite addr_idx in Hl.
     split; [exact Hl|]. intros h' S. eapply agreeE_stable; eauto.
+  - destruct (eusable g (idx w) && match j with Some a => eusable g (idx a) | None => true end) eqn:Hc; [|discriminate].
+    inversion Hstep; subst g'. apply andb_prop in Hc. destruct Hc as [Hu Hj].
+    pose proof (agreeE_usable_live g h AG (idx w) Hu) as Hl. rewrite addr_idx in Hl.
+    split; [split; [exact Hl|split]|intros h' S; eapply agreeE_stable; eauto].
+    + intros a Ea. subst j. pose proof (agreeE_usable_live g h AG (idx a) Hj) as Hla. rewrite addr_idx in Hla. exact Hla.
+    + intros _. pose proof (agreeE_usable g h AG (idx w) Hu) as Ha. rewrite addr_idx in Ha. exact Ha.
   - destruct (eusable g (idx w)) eqn:Hu; [|discriminate]. inversion Hstep; subst g'.
     pose proof (agreeE_usable_live g h AG (idx w) Hu) as Hl. rewrite addr_idx in Hl.
     split; [exact Hl|]. intros h' S. eapply agreeE_stable; eauto.
